@@ -29,6 +29,8 @@ func c12Setup() {
 		transformations.Register("verifswapa", c12Swapper('a', 'x'))
 		transformations.Register("verifswapb", c12Swapper('b', 'x'))
 		transformations.Register("verifswapx", c12Swapper('x', 'a'))
+		// a plugin is free to choose its name: this one spells like two others joined by '+'
+		transformations.Register("verifswapa+verifswapb", c12Swapper('b', 'y'))
 		c12Custom = []string{"verifswapa", "verifswapb", "verifswapx"}
 	})
 }
@@ -151,10 +153,16 @@ func genC12(t *rapid.T) *C12Case {
 			}
 		}
 		tg := rapid.SampledFrom([][]Target{{{Var: "ARGS_GET"}}, {{Var: "ARGS"}}, {{Var: "REQUEST_HEADERS", Key: "h"}}}).Draw(t, "sibtargets")
+		joined := rapid.IntRange(0, 2).Draw(t, "joinedname") == 0
 		for k := 0; k < 2; k++ {
 			id++
-			c.RS.Items = append(c.RS.Items, Item{Rule: &Rule{ID: id, Phase: phase, Disr: "pass", Op: "rx", Arg: rapid.SampledFrom([]string{"x", "a", "b", "^x"}).Draw(t, "sibrx"),
-				Targets: append([]Target(nil), tg...), Trans: append(append([]string(nil), clean...), c12Custom[(k+rapid.IntRange(0, 2).Draw(t, "sibc"))%3]),
+			last := []string{c12Custom[(k+rapid.IntRange(0, 2).Draw(t, "sibc"))%3]}
+			if joined {
+				// one rule applies two transformations, the other ONE transformation whose name reads like the two joined
+				last = [][]string{{"verifswapa", "verifswapb"}, {"verifswapa+verifswapb"}}[k]
+			}
+			c.RS.Items = append(c.RS.Items, Item{Rule: &Rule{ID: id, Phase: phase, Disr: "pass", Op: "rx", Arg: rapid.SampledFrom([]string{"x", "a", "b", "^x", "y"}).Draw(t, "sibrx"),
+				Targets: append([]Target(nil), tg...), Trans: append(append([]string(nil), clean...), last...),
 				Acts: []string{fmt.Sprintf("setvar:tx.c%d=+1", id)}}})
 		}
 		c.Siblings = true
